@@ -1,10 +1,13 @@
-import ScenicModel.Model.Sampler
+import ScenicModel.Model.SamplerSpec
 import ScenicModel.Gen.SamplerCfg
 import Driver.Util
 /-! line protocol for the sampler model (C01); the configuration is the one regenerated from /repo.
 
 `gen <n> <program>`      exact PMF of `generate` with `maxIterations = n`, as `key#num/den` entries sorted by key;
                          keys are `<active bits>|<iterations>|<scene>` and `<active bits>|rej`
+`spec <n> <program>`     the same PMF computed from the *declarative* semantics `specGenerate` (Model/SamplerSpec.lean)
+`hyp <program>`          `ok` when the hypotheses of `Scenic.C01.scene_generation_eq_declarative_semantics` hold for the
+                         program (acyclic, proper weights, roots in range), else which one fails
 `order <program>`        the DFS post-order in which `sampleAll` draws
 `paths <program>`        number of weighted outcomes of one `sampleAll`
 
@@ -180,11 +183,35 @@ def runGen (n : Nat) (p : Program) : String :=
     | some (s, k) => (bits x.1.1 ++ "|" ++ toString k ++ "|" ++ s, x.2)
     | none => (bits x.1.1 ++ "|rej", x.2)) d)
 
+def renderGen (d : Dist (List Bool × Option (String × Nat))) : String :=
+  render (List.map (fun (x : (List Bool × Option (String × Nat)) × Rat) =>
+    match x.1.2 with
+    | some (s, k) => (bits x.1.1 ++ "|" ++ toString k ++ "|" ++ s, x.2)
+    | none => (bits x.1.1 ++ "|rej", x.2)) d)
+
+def runSpec (n : Nat) (p : Program) : String :=
+  renderGen (specGenerate cfg p.prog p.roots (p.reqs.map fun (q, e) => (q, e.holds)) (p.defaults.map (·.holds))
+    (sceneOf p.outs) n)
+
+def runHyp (p : Program) : String :=
+  if !p.prog.wfB then "not-acyclic"
+  else if !p.prog.normalizedB then "improper-weights"
+  else if !(p.roots.all fun j => decide (j < p.prog.nodes.length)) then "root-out-of-range"
+  else "ok"
+
 def handle : List String → String
   | "gen" :: n :: rest =>
     match n.toNat?, pProgram rest with
     | some n, some (p, []) => runGen n p
     | _, _ => "bad-program"
+  | "spec" :: n :: rest =>
+    match n.toNat?, pProgram rest with
+    | some n, some (p, []) => runSpec n p
+    | _, _ => "bad-program"
+  | "hyp" :: rest =>
+    match pProgram rest with
+    | some (p, []) => runHyp p
+    | _ => "bad-program"
   | "order" :: rest =>
     match pProgram rest with
     | some (p, []) => " ".intercalate ((postorder p.prog p.roots).map toString)
